@@ -918,6 +918,12 @@ func (e *env) genRt(rng *gen.Rng) {
 				if st.Hyperlink != "" {
 					st.HyperlinkParams = params[ui%len(params)]
 				}
+				if rng.Chance(1, 8) {
+					// outside LinksRestorable (parameters not a function of the URL, parameters under the empty URL, a ';' in
+					// them): the oracle does not judge the links of such cell lists; model ≡ code through decbl
+					st.HyperlinkParams = gen.Pick(rng, []string{"", "id=7", "id=a:foo=b", "x;y"})
+					r.Count("rtl:params-free")
+				}
 			}
 			c := withG(gen.Pick(rng, graphemes), st)
 			real = append(real, c)
